@@ -8,10 +8,10 @@ from ..world import rt
 from . import common as cm
 
 RS = [1, 2, 3, 8]
-CS = [1, 2, 3, 4, 6, 12]
-CONC = [(0.001, 10, 10), (0.01, 10, 20), (0.3, 30, 30), (1, 100, 100), (5, 10, 500), (5, 10, 10), (1, 123, 123)]
-VMAX = [100, 1000, "ramp"]
-MINT = [1, 10, 20, 50]
+CS = [1, 2, 3, 4, 5, 6, 12]
+CONC = [(0.001, 10, 10), (0.01, 10, 20), (0.3, 30, 30), (1, 100, 100), (5, 10, 500), (5, 10, 10), (1, 123, 123), (0.2, 1, 1), (0.2, 1, 10), (1, 10, 12)]
+VMAX = [100, 500, 1000, "ramp"]
+MINT = [1, 2.5, 10, 10.25, 20, 50]
 
 
 def vmax_of(v, C):
